@@ -506,7 +506,7 @@ def body(case, col):
     if stratum == "real":
         match = [b for b in range(23) if not H.perturbed_groups(cf["video_parameters"], b)]
         lab += ["real:level:%d" % int(cf["level"]), "real:base:%s" % (match[0] if match else "customised"),
-                "real:near:%s" % kinds.get("near")]
+                "real:near:%s:%s" % (kinds.get("near"), outcome if outcome != "raise" else "raise:" + str(detail))]
     nt = False
     if outcome == "raise":
         lab += ["outcome:raise", "raise:" + detail]
